@@ -311,7 +311,7 @@ class H:
 
 class C02(World):
     ID = "C02"
-    RUNS = {"quick": 400000, "thorough": 30000000}
+    RUNS = {"quick": 700000, "thorough": 30000000}
     WALL = {"quick": 100.0, "thorough": 1700.0}
     BLOCK = 1500
     RULE = (
